@@ -169,7 +169,13 @@ func (c *Ctx) runFormatBatch(k fmtKind, inputs []string, st *fmtStats, tame ...b
 		if !strings.Contains(in, "#") && goOutC != goOut {
 			c.Report("correspondence", "comments-on-differs", fmt.Sprintf("%s: comment-free document %q formats differently with WithComments()", k.tag, in), replay(nil))
 		}
-		// (ii) direct round-trip checks
+		// (ii) direct round-trip checks. Texts that are not valid UTF-8 are outside the properties'
+		// quantifier ("whatever characters they contain"): after an escape the lexer re-encodes what
+		// it decodes, so ill-formed bytes cannot survive (theorem C12_quote_illformed_counterexample).
+		if !utf8.ValidString(in) {
+			st.outOfDomain++
+			continue
+		}
 		for x, r := range strings.Split(rt, ";") {
 			st.rtCases++
 			if r == "ok" {
@@ -453,6 +459,17 @@ var fmtMinimalS = []string{
 	`type Query { f: Int } extend type Query { g: Int }`,
 }
 
-func init() { Checks["X-format"] = checkXFormat }
+func init() {
+	Checks["X-format"] = checkXFormat
+	// C12: executable documents (entry point tag q:); C13: schema documents (sd:) and loaded schemas (s:)
+	Checks["C12"] = func(c *Ctx) {
+		c.SigFilter = func(sig string) bool { return !strings.HasPrefix(sig, "sd:") && !strings.HasPrefix(sig, "s:") }
+		checkXFormat(c)
+	}
+	Checks["C13"] = func(c *Ctx) {
+		c.SigFilter = func(sig string) bool { return !strings.HasPrefix(sig, "q:") }
+		checkXFormat(c)
+	}
+}
 
 var _ = rng.New
